@@ -4,7 +4,7 @@ provenance (P3), gate reachability, path-sensitive simulation (P4).
 Everything here works on the JSON facts written by /verif/mirfacts (MIR at
 opt-level 0 of crate `masscanned`).  Nothing of the analysed program is run.
 """
-import json, re, collections, sys
+import json, re, collections, sys, os
 
 sys.setrecursionlimit(20000)
 
@@ -336,6 +336,14 @@ class Fn:
                 continue
             out.append((i, t))
         return out
+
+    def origin(self, bi):
+        """the block this one is a copy of (decision threading duplicates tails), else itself"""
+        return self.blocks[bi].get('clone_of', bi)
+
+    def n_sites(self, blocks):
+        """number of distinct source sites among the blocks (copies of one block count once)"""
+        return len(set(self.origin(b) for b in blocks))
 
     def loc(self, bi):
         t = self.blocks[bi]['term']
@@ -1119,9 +1127,13 @@ class Facts:
         il = _inl.Inliner(self.d['fns'], self.anchors)
         self.d['fns'] = il.run()
         # helpers whose every call site was inlined: analysed only in the context of their callers
-        self.inlined_helpers = {h: sorted(cs) for h, cs in il.inlined_into.items() if not il.kept_calls.get(h)}
+        self.inlined_helpers = {h: sorted(cs) for h, cs in il.inlined_into.items() if not il.kept_calls.get(h) and not (il.raw[h].get('impl_trait') or '')}
         for cid in il.closures_fully_inlined:
             self.inlined_helpers[cid] = sorted(il.closure_inlined[cid])
+        # decisions carried in enum values are threaded back into control flow (vlib/thread.py)
+        from . import thread as _thr
+        self.threaded = _thr.run([f for f in self.d['fns'] if f['id'] not in self.inlined_helpers], self.d.get('adts', []),
+                                 std_enums=os.environ.get('VERIF_THREAD_STD', '1') == '1')
         for f in self.d['fns']:
             if f['id'] in self.inlined_helpers:
                 continue
@@ -1155,6 +1167,33 @@ class Facts:
         return [f for k, f in self.fns.items() if r.search(k)]
 
     # ---------------- call graph (P1)
+    FMT_ARG = re.compile(r"^core::fmt::rt::Argument::<'_>::new_(display|debug|lower_hex|upper_hex|octal|binary|lower_exp|upper_exp|pointer)$")
+    FMT_TRAIT = {'display': 'Display', 'debug': 'Debug', 'lower_hex': 'LowerHex', 'upper_hex': 'UpperHex', 'octal': 'Octal', 'binary': 'Binary',
+                 'lower_exp': 'LowerExp', 'upper_exp': 'UpperExp', 'pointer': 'Pointer'}
+
+    def fmt_arg_target(self, f, bi):
+        """A `format_args!` argument constructor (`Argument::new_display::<T>(&x)`) stores a pointer to `<T as Display>::fmt`, which the
+        formatter calls later: the id of that impl (a local body when T is a crate type, else a pseudo id for the API tables)."""
+        t = f.blocks[bi]['term']
+        if t['k'] != 'call':
+            return None
+        m = self.FMT_ARG.match(t['callee'])
+        if not m or not t['args'] or t['args'][0]['k'] not in ('copy', 'move'):
+            return None
+        ty = f.locals[t['args'][0]['place']['l']]['ty']
+        while True:
+            ty2 = re.sub(r"^&('\{?\w+\}? )?(mut )?", '', ty)
+            if ty2 == ty:
+                break
+            ty = ty2
+        trait = 'std::fmt::' + self.FMT_TRAIT[m.group(1)]
+        bare = re.sub(r'<.*$', '', ty)
+        for imp in self.impls.get((trait, 'fmt'), []):
+            mm = re.match(r'^<(.+?) as std::fmt::\w+>::fmt$', imp)
+            if mm and re.sub(r'<.*$', '', mm.group(1)) == bare:
+                return imp
+        return '<%s as %s>::fmt' % (re.sub(r"'\{?\w+\}?", "'_", ty), trait)
+
     def callees(self, fid):
         """Resolved local + external callee ids of function fid (with closure-creation edges)."""
         f = self.fns[fid]
@@ -1184,6 +1223,9 @@ class Facts:
                 tgt = [t['callee']]
             for x in tgt:
                 out.append((x, bi, t['ckind']))
+            fa = self.fmt_arg_target(f, bi)
+            if fa:
+                out.append((fa, bi, 'fmtarg'))
             # fn items passed as arguments (e.g. lazy initialisers, callbacks)
             for a in t['args']:
                 if a['k'] == 'const' and 'fn' in a:
